@@ -192,16 +192,18 @@ class WorkflowState(object):
         if not ctxs:
             ctxs = [0]
 
+        # Copy the context pointers, the back references and the retry settings so that the staged
+        # task does not share them with a task state entry (i.e. when a retried task is staged again).
         entry = {
             "id": task_id,
-            "ctxs": {"in": ctxs},
+            "ctxs": {"in": json_util.deepcopy(ctxs)},
             "route": route,
-            "prev": prev if isinstance(prev, dict) else {},
+            "prev": json_util.deepcopy(prev) if isinstance(prev, dict) else {},
             "ready": ready,
         }
 
         if retry:
-            entry["retry"] = retry
+            entry["retry"] = json_util.deepcopy(retry)
 
         self.staged.append(entry)
 
